@@ -325,7 +325,15 @@ TrState == /\ IsEvent("StateU")
                         ELSE phys[n]]
            /\ UNCHANGED <<S, hist, tst, callC, trigOff>>
 
-TraceNext == \/ TrReset \/ TrSchema \/ TrSchemaU \/ TrAdmin \/ TrBeginCall \/ TrBegin \/ TrBeginFail
+\* after the pipeline was stopped cleanly (checker stopped, merges drained, final persist):
+\* nothing committed may be left in an unmerged transaction layer or an unsaved base layer
+TrQuiesced == /\ IsEvent("Quiesced")
+              /\ \A n \in DOMAIN phys : \A j \in 1..Len(phys[n].idx) :
+                    /\ Len(phys[n].idx[j].layers) = 1
+                    /\ phys[n].idx[j].layers[1] = <<>>
+              /\ UNCHANGED <<S, hist, tst, callC, phys, trigOff>>
+
+TraceNext == \/ TrReset \/ TrQuiesced \/ TrSchema \/ TrSchemaU \/ TrAdmin \/ TrBeginCall \/ TrBegin \/ TrBeginFail
              \/ TrTrigDisable \/ TrTrigEnable \/ TrTrigThrew \/ TrDoomedOp
              \/ TrAborted \/ TrRead \/ TrOutput \/ TrUpdate \/ TrDelete
              \/ TrCommit \/ TrComplete \/ TrRollback \/ TrState
